@@ -2,7 +2,7 @@
 logs operands before/after (with identities), what was yielded, and the effect of a write through a delivered payload."""
 import sys
 
-sys.path.insert(0, "/repo")
+sys.path.insert(0, __import__("os").environ.get("VERIF_REPO", "/repo"))
 from fibertree import Fiber, Payload, Tensor  # noqa: E402
 from . import proj  # noqa: E402
 
